@@ -36,7 +36,7 @@ ROOTS = [
     r"multistream_select::dialer_select::", r"multistream_select::listener_select::", r"multistream_select::negotiated::",
     r"substream::Substream as futures::Stream>::poll_next$", r"^substream::read_payload_size$", r"^codec::",
     r"noise::NoiseSocket<S> as futures::AsyncRead>::poll_read$", r"noise::NoiseContext::read_handshake_message",
-    r"noise::NoiseContext::get_remote_peer_id", r"noise::parse_and_verify_peer_id",
+    r"noise::NoiseContext::get_remote_peer_id", r"noise::parse_and_verify_peer_id", r"webrtc::substream::Substream as tokio::io::AsyncRead>::poll_read$",
     r"crypto::RemotePublicKey::from_protobuf_encoding", r"^peer_id::PeerId::from_",
     r"kademlia::message::KademliaMessage::from_bytes", r"kademlia::message::record_from_schema",
     r"kademlia::types::KademliaPeer as std::convert::TryFrom", r"identify::Identify::on_outbound_substream",
@@ -213,7 +213,7 @@ def r19_1(ctx, fx, seen):
             ctx.ob("R19.1", key, not missing, site=fn.site(p["node"]), cfg=fx.cfg,
                    detail="[%s] %s :: %s ; required guard facts %s%s" % (ent.get("class", "guard"), desc[:60], ent.get("why", ""), [fact_str(x) for x in ent.get("need", [])],
                                                                           (" ; NO LONGER DOMINATING: %s" % sorted(set(missing))) if missing else ""))
-    stale = sorted(set(TABLE) - used)
+    stale = sorted(k2 for k2 in set(TABLE) - used if TABLE[k2].get("cfg", fx.cfg) == fx.cfg)
     ctx.note("inventory_sites", n_sites)
     ctx.note("auto_discharged", n_auto)
     ctx.note("table_discharged", n_table)
@@ -351,14 +351,15 @@ def r19_3(ctx, fx, seen):
 
 
 def run(ctx):
-    fx = ctx.facts("default")
-    seen, found = closure(fx)
-    ctx.anchor("R19.1", "decoder root patterns resolved", found, ROOT_FLOOR, cfg=fx.cfg)
-    ctx.note("closure_bodies", len(seen))
-    r19_1(ctx, fx, seen)
-    r19_2(ctx, fx, seen)
-    r19_2b(ctx, fx, seen)
-    r19_3(ctx, fx, seen)
+    for cfg in ctx.configs():
+        fx = ctx.facts(cfg)
+        seen, found = closure(fx)
+        ctx.anchor("R19.1", "decoder root patterns resolved", found, ROOT_FLOOR, cfg=fx.cfg)
+        ctx.note("closure_bodies_" + cfg, len(seen))
+        r19_1(ctx, fx, seen)
+        r19_2(ctx, fx, seen)
+        r19_2b(ctx, fx, seen)
+        r19_3(ctx, fx, seen)
     ctx.assume("prost / unsigned-varint / multihash / multiaddr / cid / snow / bytes decoders return errors instead of panicking")
     ctx.assume("in-memory sizes are < 2^63, so usize additions of lengths and offsets cannot overflow")
-    ctx.assume("feature configuration `default`; the webrtc/quic/websocket specific decoders are not inventoried")
+    ctx.assume("quick: feature configuration `default`; thorough adds `--all-features` (webrtc substream / noise reply decoders)")
